@@ -306,9 +306,124 @@ fn gen_run(r: &mut Rng, g: &Gen, it: &mut Interner) -> String {
     format!("({}, ({}, {}))", env, base, coq_list(bytes))
 }
 
+
+// ---------------------------------------------------------------- lifted prologue / epilogue family
+/// real machine code lifted by the real translators: (non-terminal encodings, terminal encoding)
+fn encodings(arch: &str) -> (Vec<(&'static str, Vec<u8>)>, Vec<u8>) {
+    let be = |w: u32| w.to_be_bytes().to_vec();
+    let le = |w: u32| w.to_le_bytes().to_vec();
+    match arch {
+        "x86" => (vec![
+            ("push ebp", vec![0x55]), ("mov ebp,esp", vec![0x89, 0xE5]), ("sub esp,0x10", vec![0x83, 0xEC, 0x10]),
+            ("add esp,0x10", vec![0x83, 0xC4, 0x10]), ("and esp,-16", vec![0x83, 0xE4, 0xF0]), ("push eax", vec![0x50]),
+            ("pop eax", vec![0x58]), ("pop ebp", vec![0x5D]), ("leave", vec![0xC9]), ("mov esp,ebp", vec![0x89, 0xEC]),
+            ("lea esp,[ebp-8]", vec![0x8D, 0x65, 0xF8]), ("push 0x10", vec![0x6A, 0x10]),
+        ], vec![0xC3]),
+        "amd64" => (vec![
+            ("push rbp", vec![0x55]), ("mov rbp,rsp", vec![0x48, 0x89, 0xE5]), ("sub rsp,0x20", vec![0x48, 0x83, 0xEC, 0x20]),
+            ("add rsp,0x20", vec![0x48, 0x83, 0xC4, 0x20]), ("and rsp,-16", vec![0x48, 0x83, 0xE4, 0xF0]), ("push rax", vec![0x50]),
+            ("pop rax", vec![0x58]), ("pop rbp", vec![0x5D]), ("leave", vec![0xC9]), ("mov rsp,rbp", vec![0x48, 0x89, 0xEC]),
+        ], vec![0xC3]),
+        "mips" | "mipsel" => {
+            let e = |w: u32| if arch == "mips" { be(w) } else { le(w) };
+            let mut term = e(0x03E00008);
+            term.extend(e(0));
+            (vec![
+                ("addiu sp,sp,-32", e(0x27BDFFE0)), ("sw ra,28(sp)", e(0xAFBF001C)), ("lw ra,28(sp)", e(0x8FBF001C)),
+                ("addiu sp,sp,32", e(0x27BD0020)), ("move fp,sp", e(0x03A0F021)), ("move sp,fp", e(0x03C0E821)),
+                ("sw fp,24(sp)", e(0xAFBE0018)), ("lw fp,24(sp)", e(0x8FBE0018)), ("addiu sp,sp,-8", e(0x27BDFFF8)),
+            ], term)
+        }
+        "ppc" => (vec![
+            ("stwu r1,-32(r1)", be(0x9421FFE0)), ("mflr r0", be(0x7C0802A6)), ("stw r0,36(r1)", be(0x90010024)),
+            ("lwz r0,36(r1)", be(0x80010024)), ("mtlr r0", be(0x7C0803A6)), ("addi r1,r1,32", be(0x38210020)),
+            ("addi r1,r1,-16", be(0x3821FFF0)), ("mr r31,r1", be(0x7C3F0B78)), ("mr r1,r31", be(0x7FE1FB78)),
+        ], be(0x4E800020)),
+        _ => (vec![
+            ("stp x29,x30,[sp,#-16]!", le(0xA9BF7BFD)), ("mov x29,sp", le(0x910003FD)), ("sub sp,sp,#0x20", le(0xD10083FF)),
+            ("add sp,sp,#0x20", le(0x910083FF)), ("ldp x29,x30,[sp],#16", le(0xA8C17BFD)), ("mov sp,x29", le(0x910003BF)),
+            ("str x0,[sp,#8]", le(0xF90007E0)), ("ldr x0,[sp,#8]", le(0xF94007E0)),
+        ], le(0xD65F03C0)),
+    }
+}
+
+fn gen_lifted(r: &mut Rng) -> Option<Gen> {
+    use falcon::memory::backing::Memory;
+    use falcon::memory::MemoryPermissions;
+    use falcon::translator::{self, Translator};
+    let aname = *r.pick(&["x86", "amd64", "mips", "mipsel", "ppc", "aarch64", "aarch64eb"]);
+    if aname == "aarch64eb" {
+        return None; // instruction fetch is little-endian on both; the table is for the LE memory image
+    }
+    let (body, term) = encodings(aname);
+    let n = r.range(1, 6);
+    let mut bytes: Vec<u8> = vec![];
+    let mut text: Vec<&str> = vec![];
+    for _ in 0..n {
+        let (t, b) = r.pick(&body);
+        text.push(*t);
+        bytes.extend(b.iter());
+    }
+    bytes.extend(term.iter());
+    let (idx, endian) = match aname {
+        "x86" => (0, falcon::architecture::Endian::Little),
+        "amd64" => (1, falcon::architecture::Endian::Little),
+        "mips" => (2, falcon::architecture::Endian::Big),
+        "mipsel" => (3, falcon::architecture::Endian::Little),
+        "ppc" => (4, falcon::architecture::Endian::Big),
+        _ => (5, falcon::architecture::Endian::Little),
+    };
+    let mut mem = Memory::new(endian);
+    mem.set_memory(0x1000, bytes, MemoryPermissions::READ | MemoryPermissions::EXECUTE);
+    let tr: Box<dyn Translator> = match aname {
+        "x86" => Box::new(translator::x86::X86::new()),
+        "amd64" => Box::new(translator::x86::Amd64::new()),
+        "mips" => Box::new(translator::mips::Mips::new()),
+        "mipsel" => Box::new(translator::mips::Mipsel::new()),
+        "ppc" => Box::new(translator::ppc::Ppc::new()),
+        _ => Box::new(translator::aarch64::AArch64::new()),
+    };
+    let f = match observe(|| tr.translate_function(&mem, 0x1000)) {
+        Obs::Ok(f) => f,
+        _ => return None,
+    };
+    let (a, _) = arch(idx);
+    let sp = a.stack_pointer();
+    // every scalar of the lifted function gets an initial value
+    let mut pool: Vec<Scalar> = vec![sp.clone()];
+    let mut add = |s: &Scalar, pool: &mut Vec<Scalar>| {
+        if !pool.iter().any(|t| t.name() == s.name()) {
+            pool.push(il::scalar(s.name().to_string(), s.bits()));
+        }
+    };
+    for b in f.blocks() {
+        for i in b.instructions() {
+            for s in i.scalars_read().unwrap_or_default() { add(s, &mut pool); }
+            for s in i.scalars_written().unwrap_or_default() { add(s, &mut pool); }
+        }
+    }
+    for e in f.edges() {
+        if let Some(c) = e.condition() { for s in c.scalars() { add(s, &mut pool); } }
+    }
+    let mut tags = BTreeSet::new();
+    tags.insert(format!("arch:{}", aname));
+    tags.insert(format!("width:{}", sp.bits()));
+    tags.insert("lifted".to_string());
+    tags.insert(format!("lifted:{}", aname));
+    for t in &text {
+        if t.starts_with("push") || t.contains("sp,-") || t.starts_with("sub") || t.starts_with("stwu") || t.starts_with("stp") { tags.insert("push".to_string()); }
+        if t.starts_with("pop") || t.starts_with("add") || t.starts_with("ldp") { tags.insert("pop".to_string()); }
+        if t.starts_with("and") { tags.insert("and-mask".to_string()); }
+        if t.starts_with("leave") { tags.insert("leave".to_string()); }
+    }
+    let _ = text;
+    Some(Gen { f, sp, pool, tags, arch: match aname { "x86" => "x86", "amd64" => "amd64", "mips" => "mips", "mipsel" => "mipsel", "ppc" => "ppc", _ => "aarch64" } })
+}
+
 fn gen_case(seed: u64, i: u64) -> Case {
     let mut r = Rng::for_case(seed, i);
-    let g = gen(&mut r);
+    let lifted = if r.chance(1, 5) { gen_lifted(&mut r) } else { None };
+    let g = match lifted { Some(g) => g, None => gen(&mut r) };
     let (a, _) = arch(match g.arch { "x86" => 0, "amd64" => 1, "mips" => 2, "mipsel" => 3, "ppc" => 4, "aarch64" => 5, _ => 6 });
     let mut it = Interner::new();
     let fcoq = coq_function(&g.f, &mut it);
